@@ -144,7 +144,7 @@ func (p *Path) decodeInto(ts []*Term, out Value, fr *frame, pos token.Pos) (cons
 	// hostile / foreign bytes
 	if !p.decodeArbOff && p.choose(2) == 1 {
 		storeInto(ptr, p.arbitrary(pt.Elem(), 0))
-		p.cover("decode.arbitrary")
+		p.cover("engine.decode.arbitrary")
 		// an arbitrary decode may consume any prefix; model: everything offered
 		return len(ts), IfaceVal{}
 	}
@@ -171,6 +171,9 @@ func (ex *Explorer) lookupFunc(pkg, name string) *ssa.Function {
 func (p *Path) ifaceCall(th *thread, fr *frame, pos token.Pos, iv IfaceVal, method string, args ...Value) Value {
 	if iv.T == nil {
 		p.obligation(tFalse, "nil", "nilinvoke@"+fnName(fr), "method "+method+" on nil interface", fr, pos)
+	}
+	if mc := markerMethod(iv.T, method); mc != nil {
+		return p.callMarker(th, fr, pos, mc, append([]Value{iv.V}, args...))
 	}
 	m := p.ex.prog.LookupMethod(iv.T, nil, method)
 	if m == nil {
